@@ -212,7 +212,11 @@ def canon_of_bp(cat, shape, m):
     import betterproto
 
     s = cat.shapes[shape] if isinstance(shape, str) else shape
-    c = {"f": {}, "g": {}, "u": m._unknown_fields}
+    u = getattr(m, "_unknown_fields", None)
+    if u is None:
+        # no such attribute (the representation is not part of any property): read the unknown fields off the message's own encoding
+        u = spec_decode(cat, s.name, bytes(m))["u"]
+    c = {"f": {}, "g": {}, "u": u}
 
     def one(f, x):
         if f.wraps:
